@@ -387,14 +387,16 @@ template<class C, class F> void parallel_for_each(C &c, const F &f) { parallel_f
 class global_control {
 public:
     enum parameter { max_allowed_parallelism, thread_stack_size, terminate_on_exception, scheduler_handle, parameter_max };
-    global_control(parameter p, size_t value) : my_param(p), my_value(value) {
-        if (p == max_allowed_parallelism) { sim::ProcCtx *pc = sim::cur_proc(); sim::IgnoreGuard ig; pc->gc_parallelism.insert(value < 1 ? 1 : value); }
+    global_control(parameter p, size_t value) : my_param(p), my_value(value), my_proc(sim::cur_proc()) {
+        if (p == max_allowed_parallelism) { sim::IgnoreGuard ig; my_proc->gc_parallelism.insert(value < 1 ? 1 : value); }
     }
     ~global_control() {
         if (my_param == max_allowed_parallelism) {
-            sim::ProcCtx *pc = sim::cur_proc(); sim::IgnoreGuard ig;
-            auto it = pc->gc_parallelism.find(my_value < 1 ? 1 : my_value);
-            if (it != pc->gc_parallelism.end()) pc->gc_parallelism.erase(it);
+            sim::IgnoreGuard ig;
+            // the simulated process this control was created in may be gone (a static that outlived its run)
+            if (my_proc != &sim::default_proc && !sim::live_procs().count(my_proc)) return;
+            auto it = my_proc->gc_parallelism.find(my_value < 1 ? 1 : my_value);
+            if (it != my_proc->gc_parallelism.end()) my_proc->gc_parallelism.erase(it);
         }
     }
     static size_t active_value(parameter p) {
@@ -405,7 +407,7 @@ public:
 private:
     global_control(const global_control&);
     global_control& operator=(const global_control&);
-    parameter my_param; size_t my_value;
+    parameter my_param; size_t my_value; sim::ProcCtx *my_proc;
 };
 
 class task_arena {
